@@ -59,6 +59,12 @@ fn exchange(conn: &std::sync::Arc<std::sync::RwLock<Connection>>, bytes: &[u8], 
                     break;
                 }
             }
+            // the service closed while our pipelined requests were still unread on its side:
+            // the kernel reports that as a reset instead of EOF (after delivering what was queued)
+            Err(e) if e.kind() == std::io::ErrorKind::ConnectionReset || e.kind() == std::io::ErrorKind::BrokenPipe => {
+                closed = true;
+                break;
+            }
             Err(e) => return Err(format!("read: {}", e)),
         }
     }
